@@ -15,7 +15,7 @@ Lemma Jb_intro : forall a s,
   a_fired a = ld (s_loop s) ->
   (s_called s = true -> a_fired a = true) ->
   (a_local a = true -> s_hconn s = false) ->
-  (s_hconn s = false -> a_local a = true \/ s_sc s = true) ->
+  (s_hconn s = false -> a_local a = true \/ s_sc s = true \/ s_st s = true) ->
   Jb a s = true.
 Proof.
   intros a s H1 H2 H3 H4 H5 H6 H7 H8 H9 H10 H11.
@@ -30,7 +30,7 @@ Proof.
   - apply eqb_reflx.
   - destruct (s_called s); cbn; auto. rewrite <- H8; auto.
   - destruct (a_local a); cbn; auto. rewrite H10; auto.
-  - destruct (s_hconn s); cbn; auto. destruct (H11 eq_refl) as [-> | ->]; cbn; auto. apply orb_true_r.
+  - destruct (s_hconn s); cbn; auto. destruct (H11 eq_refl) as [-> | [-> | ->]]; cbn; auto; rewrite ?orb_true_r; auto.
 Qed.
 
 Lemma okstep_sc_true : forall a s, Jb a s = true -> Jd a s ->
